@@ -437,7 +437,7 @@ func verifC23Stack() string {
 }
 
 func verifC23AllStacks() string {
-	buf := make([]byte, 1<<20)
+	buf := make([]byte, 8<<20)
 	return string(buf[:runtime.Stack(buf, true)])
 }
 
@@ -511,6 +511,31 @@ func (e *verifC23Env) quiesce() bool {
 	if p == nil {
 		p = []int{}
 	}
+	if len(p) != 0 {
+		// the witness says where everybody is: the driver's view of each pending request and the
+		// stacks of all goroutines inside the cache or the driver
+		var stuck []map[string]any
+		for _, r := range all {
+			select {
+			case <-r.done:
+				continue
+			default:
+			}
+			closed := func(c chan struct{}) bool {
+				select {
+				case <-c:
+					return true
+				default:
+					return false
+				}
+			}
+			stuck = append(stuck, map[string]any{"g": r.g, "key": r.key, "loaderEntered": closed(r.entered), "loaderReturned": closed(r.loaded),
+				"loaderHeldByDriver": r.loadGate != nil && closed(r.entered) && !closed(r.loaded), "gateHeldByDriver": r.gateHeld.Load(),
+				"insideInflightCall": r.inCache.Load() != 0})
+		}
+		e.tr.Emit("Quiesce", "pending", p, "stuck", stuck, "stacks", verifC23HarnessFrames(verifC23AllStacks(), 200000))
+		return false // a witness: the trace is rejected by Termination
+	}
 	e.tr.Emit("Quiesce", "pending", p)
 	if len(p) != 0 {
 		return false // a witness: the trace is rejected by Termination
@@ -530,6 +555,22 @@ func (e *verifC23Env) quiesce() bool {
 		return false
 	}
 	return true
+}
+
+// the goroutines inside the cache code or the driver, up to max characters
+func verifC23HarnessFrames(stacks string, max int) string {
+	var sb strings.Builder
+	for _, g := range strings.Split(stacks, "\n\n") {
+		if strings.Contains(g, "tscache2") || strings.Contains(g, "verif_c23") {
+			sb.WriteString(g)
+			sb.WriteString("\n\n")
+		}
+	}
+	s := sb.String()
+	if len(s) > max {
+		s = s[:max]
+	}
+	return s
 }
 
 // only the goroutines that are inside the cache code
